@@ -448,7 +448,11 @@ def expand(t, defs):
 
 def norm_vec(v):
     if isinstance(v, tuple) and v and v[0] == "argsort" and isinstance(v[1], tuple) and v[1] and v[1][0] == "argsort":
-        return norm_vec(v[1][1]) if False else v  # argsort(argsort(p)) = p only for permutations; kept as is
+        inner = v[1][1]
+        # argsort(argsort(p)) = p holds for permutation vectors only: the payload of a Permutation operator is one
+        if isinstance(inner, tuple) and inner and inner[0] == "sym" and str(inner[1]).endswith(".perm"):
+            return inner
+        return v
     if isinstance(v, tuple) and v and v[0] == "recip" and isinstance(v[1], tuple) and v[1] and v[1][0] == "recip":
         return norm_vec(v[1][1])
     return v
@@ -577,6 +581,21 @@ class TermEval(AbsInt):
             return self.index(base, sl.value)
         if base[0] == "list" and isinstance(sl, ast.Constant) and isinstance(sl.value, int):
             return self.index(base, sl.value)
+        # gathers by a permutation vector p:  X[p] = P X with P = I[p];  X[:, p] = X P^T  (column j of the result is column p[j] of X)
+        def perm_vec(e):
+            if isinstance(e, (ast.Slice, ast.Tuple, ast.Constant)):
+                return None
+            v = self.ev(e, ctx)
+            if (v[0] == "sym" and str(v[1]).endswith(".perm")) or v[0] == "argsort":
+                return v
+            return None
+        pv = perm_vec(sl)
+        if pv is not None:
+            return MUL(("perm", pv), base)
+        if isinstance(sl, ast.Tuple) and len(sl.elts) == 2 and isinstance(sl.elts[0], ast.Slice) and sl.elts[0].lower is None and sl.elts[0].upper is None and sl.elts[0].step is None:
+            pv = perm_vec(sl.elts[1])
+            if pv is not None:
+                return MUL(base, T(("perm", pv)))
         # diag[:, None] / diag[None, :] idioms
         if isinstance(sl, ast.Tuple) and len(sl.elts) == 2:
             a, b = sl.elts
